@@ -227,7 +227,7 @@ class _InlineMethods:
             out.append(st)
         return out
 
-    def _expand(self, st, call, target, host, m, has_recv=True):
+    def _expand(self, st, call, target, host, m, has_recv=True, tail=False):
         import copy
         if any(isinstance(a, ast.Starred) for a in call.args) or any(k.arg is None for k in call.keywords):
             raise ValueError('star arguments')
@@ -237,7 +237,7 @@ class _InlineMethods:
         if not has_recv:
             params = ['<no receiver>'] + params
         recv_m = params[0]
-        recv_h = host.args.args[0].arg
+        recv_h = host.args.args[0].arg if host.args.args else '<no receiver>'
         bound = {}
         pos = params[1:len(m.args.posonlyargs + m.args.args) + (0 if has_recv else 1)]
         for p_, a in zip(pos, call.args):
@@ -265,7 +265,8 @@ class _InlineMethods:
         pre = []
         for p_ in params[1:]:
             a = bound[p_]
-            if isinstance(a, ast.Name) and a.id == p_ and p_ not in stored:
+            if isinstance(a, ast.Name) and a.id == p_ and (p_ not in stored or tail):
+                mapping[p_] = p_
                 continue            # identity binding of a name the helper never rebinds
             mapping[p_] = tag + p_
             asg = ast.Assign(targets=[ast.Name(id=tag + p_, ctx=ast.Store())], value=a, type_comment=None)
@@ -287,8 +288,12 @@ class _InlineMethods:
                 return [ast.copy_location(ast.Expr(value=ret.value), ret)]
             v = ret.value if ret.value is not None else ast.copy_location(ast.Constant(value=None), ret)
             return [ast.copy_location(ast.Assign(targets=[copy.deepcopy(target)], value=v, type_comment=None), ret)]
-        new_body = _structure_returns(body, make_result)
-        if target is not None and not _always_assigns(new_body):
+        if tail:
+            # `return helper(...)`: the helper's own returns leave the host just the same
+            new_body = body + ([] if _always_leaves(body) else [ast.copy_location(ast.Return(value=ast.Constant(value=None)), st)])
+        else:
+            new_body = _structure_returns(body, make_result)
+        if not tail and target is not None and not _always_assigns(new_body):
             # falling off the end of the helper returns None
             new_body.append(ast.copy_location(ast.Assign(targets=[copy.deepcopy(target)], value=ast.Constant(value=None), type_comment=None), st)) if not _has_tail_assign(new_body) else None
         res = pre + new_body
@@ -316,6 +321,167 @@ def _always_assigns(stmts):
     return False
 
 
+_KNOWN = None
+
+
+def known_functions():
+    """functions and methods of the analysed package as confirmed by hand on the pinned tree (tools/mkknown.py).  The table takes no part in any
+    verdict: a function that is NOT in it is a helper somebody extracted later, and its body is expanded into its callers so that every rule keeps
+    seeing the statements it reasons about"""
+    global _KNOWN
+    if _KNOWN is None:
+        import json
+        path = os.path.join(os.path.dirname(os.path.abspath(__file__)), 'known_functions.json')
+        with open(path) as fh:
+            _KNOWN = {k: set(v) for k, v in json.load(fh).items()}
+    return _KNOWN
+
+
+class _HoistCalls(ast.NodeTransformer):
+    """replace calls of new helpers that sit inside a larger expression by a temporary assigned just before the statement (only where the call
+    is evaluated unconditionally and exactly once)"""
+
+    def __init__(self, is_new_call, counter):
+        self.is_new_call = is_new_call
+        self.counter = counter
+        self.pre = []
+
+    def visit_Lambda(self, node):
+        return node
+    visit_ListComp = visit_SetComp = visit_DictComp = visit_GeneratorExp = visit_IfExp = visit_Lambda
+
+    def visit_BoolOp(self, node):
+        node.values[0] = self.visit(node.values[0])
+        return node
+
+    def visit_Call(self, node):
+        self.generic_visit(node)
+        if self.is_new_call(node):
+            self.counter[0] += 1
+            nm = '__hoisted_%d' % self.counter[0]
+            self.pre.append(ast.copy_location(ast.Assign(targets=[ast.Name(id=nm, ctx=ast.Store())], value=node, type_comment=None), node))
+            return ast.copy_location(ast.Name(id=nm, ctx=ast.Load()), node)
+        return node
+
+
+class _InlineNewHelpers(_InlineMethods):
+    """expand, in every function of a module, the calls of same-module functions and same-class methods that are not in the table of known
+    functions (extract-function refactorings)"""
+
+    def __init__(self, tree, known):
+        _InlineMethods.__init__(self, tree)
+        self.known = known
+        self.hcount = [0]
+
+    def run(self):
+        self.module_funcs = {n.name: n for n in self.tree.body if isinstance(n, ast.FunctionDef)}
+        self.new_funcs = {k: v for k, v in self.module_funcs.items() if k not in self.known}
+        classes = [n for n in self.tree.body if isinstance(n, ast.ClassDef)]
+        new_methods = {}
+        for cls in classes:
+            for m in cls.body:
+                if isinstance(m, ast.FunctionDef) and (cls.name + '.' + m.name) not in self.known and cls.name in {k.split('.')[0] for k in self.known if '.' in k}:
+                    new_methods.setdefault(cls.name, {})[m.name] = m
+        if not self.new_funcs and not new_methods:
+            return False
+        for _ in range(3):
+            for fn in self.module_funcs.values():
+                self.methods = {}
+                fn.body = self._block(fn.body, fn, {})
+            for cls in classes:
+                self.methods = new_methods.get(cls.name, {})
+                for m in cls.body:
+                    if isinstance(m, ast.FunctionDef):
+                        m.body = self._block(m.body, m, self.methods)
+        return True
+
+    def _eligible(self, host, m):
+        if m is host or (m.decorator_list and not self._is_static(m)) or m.args.vararg or m.args.kwarg or len(m.body) > 120:
+            return False
+        # protocol methods (visitor dispatch, dunders) are reached through their base class, they are not helpers
+        if m.name.startswith('visit') or m.name == 'generic_visit' or (m.name.startswith('__') and m.name.endswith('__')):
+            return False
+        for x in ast.walk(m):
+            if isinstance(x, (ast.Yield, ast.YieldFrom, ast.Await, ast.Global, ast.Nonlocal)):
+                return False
+            if x is not m and isinstance(x, (ast.FunctionDef, ast.AsyncFunctionDef, ast.Lambda, ast.ClassDef)):
+                return False
+            # a helper that calls itself is not expanded
+            if isinstance(x, ast.Call) and ((isinstance(x.func, ast.Name) and x.func.id == m.name) or (isinstance(x.func, ast.Attribute) and x.func.attr == m.name)):
+                return False
+        return True
+
+    def _callee(self, call, host):
+        """the new helper a call refers to: (node, has_recv) or None"""
+        if isinstance(call.func, ast.Name) and call.func.id in self.new_funcs:
+            return self.new_funcs[call.func.id], False
+        if isinstance(call.func, ast.Attribute) and isinstance(call.func.value, ast.Name) and host.args.args and call.func.value.id == host.args.args[0].arg \
+                and call.func.attr in self.methods and not (host.decorator_list):
+            m = self.methods[call.func.attr]
+            return m, not self._is_static(m)
+        return None
+
+    def _block(self, stmts, host, methods):
+        out = []
+        for st in stmts:
+            for fld in ('body', 'orelse', 'finalbody'):
+                if isinstance(getattr(st, fld, None), list) and not isinstance(st, (ast.FunctionDef, ast.AsyncFunctionDef, ast.ClassDef)):
+                    setattr(st, fld, self._block(getattr(st, fld), host, methods))
+            if isinstance(st, ast.Try):
+                for h in st.handlers:
+                    h.body = self._block(h.body, host, methods)
+            if isinstance(st, (ast.FunctionDef, ast.AsyncFunctionDef, ast.ClassDef)):
+                out.append(st)
+                continue
+
+            def is_new(c):
+                r = self._callee(c, host)
+                return r is not None and self._eligible(host, r[0])
+            # calls buried in an expression are named first
+            direct = None
+            if isinstance(st, (ast.Assign, ast.Expr, ast.Return)) and isinstance(st.value, ast.Call) and is_new(st.value) and \
+                    (not isinstance(st, ast.Assign) or (len(st.targets) == 1 and isinstance(st.targets[0], (ast.Name, ast.Attribute, ast.Tuple)))):
+                direct = st.value
+            pre = []
+            h = _HoistCalls(is_new, self.hcount)
+            if isinstance(st, (ast.Assign, ast.AugAssign, ast.AnnAssign, ast.Expr, ast.Return)) and st.value is not None:
+                if direct is not None:
+                    # only the arguments of the direct call
+                    direct.args = [h.visit(a) for a in direct.args]
+                    for k in direct.keywords:
+                        k.value = h.visit(k.value)
+                else:
+                    st.value = h.visit(st.value)
+            elif isinstance(st, ast.If):
+                st.test = h.visit(st.test)
+            elif isinstance(st, ast.For):
+                st.iter = h.visit(st.iter)
+            elif isinstance(st, ast.Assert):
+                st.test = h.visit(st.test)
+            pre = h.pre
+            seq = []
+            for a in pre:
+                seq += self._try_expand(a, a.value, a.targets[0], host)
+            if direct is not None:
+                if isinstance(st, ast.Return):
+                    seq += self._try_expand(st, direct, None, host, tail=True)
+                else:
+                    seq += self._try_expand(st, direct, st.targets[0] if isinstance(st, ast.Assign) else None, host)
+            else:
+                seq.append(st)
+            out += seq
+        return out
+
+    def _try_expand(self, st, call, target, host, tail=False):
+        m, has_recv = self._callee(call, host)
+        try:
+            if tail and isinstance(target, ast.Tuple):
+                raise ValueError
+            return self._expand(st, call, target, host, m, has_recv=has_recv, tail=tail)
+        except Exception:
+            return [st]
+
+
 class Module:
     def __init__(self, name, relpath, src, reuse=None):
         self.name = name
@@ -332,6 +498,9 @@ class Module:
             return
         self.lines = src.splitlines()
         self.tree = ast.fix_missing_locations(_Desugar().visit(ast.parse(src, filename=relpath)))
+        known = known_functions().get(relpath)
+        if known is not None and _InlineNewHelpers(self.tree, known).run():
+            ast.fix_missing_locations(self.tree)
         if any(isinstance(n, ast.ClassDef) and any(n.name == c for (c, _m) in INLINE_HOSTS) for n in self.tree.body):
             _InlineMethods(self.tree).run()
             ast.fix_missing_locations(self.tree)
